@@ -163,7 +163,7 @@ func init() {
 			}
 			// siblings: destinations that sort between a path and its children ('.', '-', ' ', '!' < '/'), so that a path,
 			// its look-alike siblings and something beneath it are not neighbours in the sorted plan: every ordered triple
-			sibD := []string{"/a/b", "/a/b.x", "/a/b-x", "/a/b/c", "/a/b x", "/a/bb", "/a/b!/c"}
+			sibD := []string{"/a/b", "/a/b.x", "/a/b-x", "/a/b/c", "/a/b x", "/a/bb", "/a/b!/c", "/a/b\\c"}
 			sibT := []model.Entry{{Src: "etc/app.conf"}, {Type: "dir"}, {Src: "/t", Type: "symlink"}, {Src: "tree", Type: "tree"}}
 			var sib []model.Entry
 			for _, t := range sibT {
